@@ -3,7 +3,7 @@
    runner and by vm_compute inside Coq (Cases_*.v). *)
 From Coq Require Import List NArith ZArith Bool String.
 From Coq.Strings Require Import Byte.
-From OAP Require Import Base.Bytes Base.Res Base.Text Gen.Consts Model.Handshake Model.Metadata Model.Header Model.Frame Model.Stream Model.World Model.Ids Model.Waiters.
+From OAP Require Import Base.Bytes Base.Res Base.Text Gen.Consts Model.Handshake Model.Metadata Model.Header Model.Frame Model.Stream Model.World Model.Ids Model.Waiters Model.Dispatch.
 Import ListNotations.
 Local Open Scope N_scope.
 
@@ -434,6 +434,43 @@ Definition run_wt (op : bytes) (args0 : list bytes) : bytes :=
     end
   else bad.
 
+(* ---- dispatch (C13) ----
+   dp.run <cap> <subs> <event> ...      subs: - or cmd:h.h.h,cmd:h     events: K take | R.<n>.<type>.<cmd>.<rid>.<status>.<bodyhex>
+   output: calls=<h:cmd:bodyhex,...|-> drops=<n> taken=<n> *)
+Definition parse_sub (b : bytes) : option (N * list nat) :=
+  match split_on ":"%byte b with
+  | [c; hs] => obind (undec c) (fun c => obind (omap_all undec (split_on "."%byte hs)) (fun hs => Some (c, map N.to_nat hs)))
+  | _ => None end.
+Definition mk_subs (l : list (N * list nat)) : subs :=
+  fun c => match find (fun e => fst e =? c) l with Some e => snd e | None => [] end.
+Definition parse_dact (e : bytes) : option dact :=
+  match e with
+  | k :: rest =>
+      if byte_eqb k "K"%byte then Some DTake
+      else if byte_eqb k "R"%byte then
+        match split_on "."%byte rest with
+        | [_; _; ty; cmd; rid; st; body] =>
+            match undec ty, undec cmd, undec rid, undec st, unhex body with
+            | Some ty, Some cmd, Some rid, Some st, Some body => Some (DRecv (mkWpkt (ptype_of_n ty) cmd rid st body))
+            | _, _, _, _, _ => None end
+        | _ => None end
+      else None
+  | [] => None
+  end.
+Definition run_dp (op : bytes) (args : list bytes) : bytes :=
+  if bytes_eqb op (str "dp.run") then
+    match args with
+    | cap :: sb :: evs =>
+        match undec cap, (if bytes_eqb sb (str "-") then Some [] else omap_all parse_sub (split_on ","%byte sb)), omap_all parse_dact evs with
+        | Some cap, Some sl, Some acts =>
+            let s := drun (mk_subs sl) (N.to_nat cap) acts in
+            str "calls=" ++
+            (match d_calls s with [] => str "-" | cs => join (str ",") (map (fun hc => decn (fst hc) ++ str ":" ++ dec (w_cmd (snd hc)) ++ str ":" ++ hex (w_body (snd hc))) cs) end)
+            ++ str " drops=" ++ decn (d_drops s) ++ str " taken=" ++ decn (List.length (d_taken s))
+        | _, _, _ => bad end
+    | _ => bad end
+  else bad.
+
 Definition run_line (line : bytes) : bytes :=
   match words line with
   | op :: args =>
@@ -443,6 +480,7 @@ Definition run_line (line : bytes) : bytes :=
       else if starts_with (str "st.") op then run_st op args
       else if starts_with (str "id.") op then run_id op args
       else if starts_with (str "wt.") op then run_wt op args
+      else if starts_with (str "dp.") op then run_dp op args
       else bad
   | [] => bad
   end.
